@@ -84,7 +84,7 @@ def build_harness(ctx):
     """the harness (itself compiled with ASan/UBSan) is linked against the sanitized libgama objects when that build
     exists for this tree or in the thorough tier; on a cold tree in the quick tier against the release objects, which
     the end-to-end oracle needs anyway (one CMake build instead of two; memory safety is not C14's subject)"""
-    san = ctx.build / f"gama-san-{ctx.tree_hash()}"
+    san = ctx.gama_dir(sanitize=True)
     if ctx.thorough or (san / ".ok").exists():
         d = build_gama_retry(ctx, sanitize=True, targets=("gama-local",))
     else:
